@@ -195,37 +195,47 @@ def mk_call(site, callee, args, argtys=None):
     return ("call", site, d, tuple(args))
 
 
-def mentions_site(e, site):
-    if not isinstance(e, tuple):
-        return False
-    if e and e[0] == "call" and e[1] == site:
-        return True
-    for x in e[1:]:
-        if isinstance(x, tuple) and mentions_site(x, site):
-            return True
-    return False
+def children(e):
+    """Direct sub-expressions of an expression node."""
+    k = e[0]
+    if k == "call":
+        return e[3]
+    if k == "agg":
+        return tuple(x for _, x in e[5])
+    if k in ("param", "unk", "const", "fn"):
+        return ()
+    if k in ("field", "variant", "deref", "ref", "discr", "idx", "content", "content_of_guard", "repeat", "proj"):
+        return (e[1],)
+    if k == "cast":
+        return (e[2],)
+    if k == "bin":
+        return (e[2], e[3])
+    if k == "un":
+        return (e[2],)
+    return tuple(x for x in e[1:] if isinstance(x, tuple) and x and isinstance(x[0], str))
 
 
 def mentions(e, pred):
-    if not isinstance(e, tuple):
-        return False
     if pred(e):
         return True
-    for x in e[1:]:
-        if isinstance(x, tuple) and mentions(x, pred):
+    for c in children(e):
+        if mentions(c, pred):
             return True
     return False
 
 
-def depth(e, lim=40):
-    if not isinstance(e, tuple) or lim <= 0:
+def mentions_site(e, site):
+    return mentions(e, lambda x: x[0] == "call" and x[1] == site)
+
+
+def depth(e, lim=60):
+    if lim <= 0:
         return 0
     m = 0
-    for x in e[1:]:
-        if isinstance(x, tuple):
-            d = depth(x, lim - 1)
-            if d > m:
-                m = d
+    for c in children(e):
+        d = depth(c, lim - 1)
+        if d > m:
+            m = d
     return m + 1
 
 
